@@ -907,6 +907,15 @@ func C02(c *sim.Ctx) {
 		switch t.Draw("after", 8) {
 		case 6:
 			p.revert()
+			// the block just reverted has passed every check of this node before: tampered twins of it
+			// (same declared hash, same position) must be refused all the same
+			for j := 0; j < 2+perBlock/2 && j < len(allTamperings); j++ {
+				tm := allTamperings[t.Draw("tampering.twin", len(allTamperings))]
+				if tryTampered(c, n(), p.d.g, b, tm, p.m) {
+					tried[tm.name] = true
+					c.Probe("tampered_twin_of_a_block_verified_before")
+				}
+			}
 		case 7:
 			p.restart(0, t.Draw("restart.graceful", 2) == 1)
 		}
